@@ -11,28 +11,25 @@ Definition touched (b : bstore) (nbits : Z) : option (Z * Z) :=
   | None => None
   end.
 
-(* An Ok() BitBlock (LittleEndian / BigEndian orderer) only touches bytes of the root allocation. *)
+(* An Ok() BitBlock (any byte orderer) only touches bytes of the root allocation. *)
 Lemma bitblock_ok_in_bounds n b bo nbits :
-  bstore_in n b -> bo <> NullBO -> 0 < nbits -> bitblock_ok b bo nbits = true ->
+  bstore_in n b -> 0 < nbits -> bitblock_ok b bo nbits = true ->
   match touched b nbits with
   | Some (lo, hi) => 0 <= lo /\ hi <= n /\ lo < hi
   | None => False
   end.
 Proof.
-  intros Hin Hbo Hn Hok. unfold bitblock_ok in Hok. apply andb_prop in Hok. destruct Hok as [H1 H2].
+  intros Hin Hn Hok. unfold bitblock_ok in Hok. apply andb_prop in Hok. destruct Hok as [H1 H2].
   destruct b as [[o l]|]; [|discriminate]. cbn [touched].
-  assert (Hsz : orderer_size bo (Some (o, l)) = l) by (destruct bo; [reflexivity|reflexivity|contradiction]).
+  assert (Hsz : orderer_size bo (Some (o, l)) = l) by reflexivity.
   rewrite Hsz in H2. cbn in Hin. destruct Hin as (Hl & [->|Hin]); [lia|].
   assert (nbits / 8 = l) by (apply Z.eqb_eq in H2; subst nbits; apply Z.div_mul; lia).
   lia.
 Qed.
 
-(* With the Null byte orderer the same statement is false (finding null-byte-order-short-buffer):
-   a one-byte field whose byte lies just past the end of the view is reported Ok. *)
-Lemma bitblock_ok_in_bounds_refuted_null_order :
-  exists n b nbits, bstore_in n b /\ 0 < nbits /\ bitblock_ok b NullBO nbits = true /\
-                    match touched b nbits with Some (lo, hi) => n < hi | None => False end.
-Proof. exists 1, (Some (1, 0)), 8. cbn. repeat split; try lia; auto. Qed.
+(* Before fix c90547c the Null byte orderer reported SizeInBytes() = 1 for every non-null buffer and
+   the statement above was false for it (finding null-byte-order-short-buffer); the model follows
+   the repaired runtime, and a regression shows up as a correspondence failure in C01/C02/C04. *)
 
 (* Reads through an Ok() OffsetBitBlock use only bits of its container. *)
 Lemma offset_block_reads_container s off size :
